@@ -41,6 +41,111 @@ def BoundsOracle (K : Type) [Field K] [LinearOrder K] [IsStrictOrderedRing K] [F
   ∀ (bm : BoundsMap (Ext K)) (ρ : String → K) (e : Exp (Ext K)) (v : K),
     BoxOK ρ bm → eval ρ e = some v → Encl (boundsOf bm e) v
 
+/-- the box restricted to the variables satisfying `S`. -/
+def BoxOKon (S : String → Prop) (ρ : String → K) (bm : BoundsMap (Ext K)) : Prop :=
+  ∀ n b, S n → lookupB bm n = some b → Encl b (ρ n)
+
+theorem BoxOK.on {S : String → Prop} {ρ : String → K} {bm : BoundsMap (Ext K)} (h : BoxOK ρ bm) : BoxOKon S ρ bm :=
+  fun n b _ hl => h n b hl
+
+theorem boundsOfList_congr {bm bm' : BoundsMap (Ext K)} : ∀ (es : List (Exp (Ext K))),
+    (∀ e ∈ es, boundsOf bm e = boundsOf bm' e) → boundsOfList bm es = boundsOfList bm' es
+  | [], _ => rfl
+  | e :: es, h => by
+    simp only [boundsOfList, h e (by simp), boundsOfList_congr es (fun e' he' => h e' (by simp [he']))]
+
+/-- `bounds_of` only reads the entries of the variables that occur. -/
+theorem boundsOf_congr {bm bm' : BoundsMap (Ext K)} : ∀ (e : Exp (Ext K)),
+    (∀ x ∈ varsOf e, lookupB bm x = lookupB bm' x) → boundsOf bm e = boundsOf bm' e := by
+  intro e
+  induction e using Exp.indL with
+  | num v => intro _; simp [boundsOf]
+  | var x => intro h; simp only [boundsOf, h x (by simp [varsOf])]
+  | abs e ih => intro h; simp only [boundsOf, ih (by simpa [varsOf] using h)]
+  | min es ih =>
+    intro h
+    have := boundsOfList_congr (bm := bm) (bm' := bm') es (fun e he => ih e he (fun x hx =>
+      h x (by simp only [varsOf]; exact mem_varsOfList.mpr ⟨e, he, hx⟩)))
+    simp only [boundsOf, this]
+  | max es ih =>
+    intro h
+    have := boundsOfList_congr (bm := bm) (bm' := bm') es (fun e he => ih e he (fun x hx =>
+      h x (by simp only [varsOf]; exact mem_varsOfList.mpr ⟨e, he, hx⟩)))
+    simp only [boundsOf, this]
+  | and es _ => intro _; simp [boundsOf]
+  | or es _ => intro _; simp [boundsOf]
+  | not e _ => intro _; simp [boundsOf]
+  | xor a b _ _ => intro _; simp [boundsOf]
+  | implies a b _ _ => intro _; simp [boundsOf]
+  | iff a b _ _ => intro _; simp [boundsOf]
+  | un op e ih =>
+    intro h
+    cases op with
+    | neg => simp only [boundsOf, ih (by simpa [varsOf] using h)]
+    | not => simp [boundsOf]
+  | bin op a b iha ihb =>
+    intro h
+    simp only [varsOf, List.mem_append] at h
+    have ha := iha (fun x hx => h x (Or.inl hx))
+    have hb := ihb (fun x hx => h x (Or.inr hx))
+    cases op with
+    | add => simp only [boundsOf, ha, hb]
+    | sub => simp only [boundsOf, ha, hb]
+    | mul =>
+      rcases num_or_not a with ⟨k, rfl⟩ | hna
+      · simp only [boundsOf, hb]
+      · rcases num_or_not b with ⟨k, rfl⟩ | hnb
+        · rw [boundsOf.eq_15 _ _ _ hna, boundsOf.eq_15 _ _ _ hna, ha]
+        · rw [boundsOf.eq_16 _ _ _ hna hnb, boundsOf.eq_16 _ _ _ hna hnb]
+    | div =>
+      rcases num_or_not b with ⟨k, rfl⟩ | hnb
+      · simp only [boundsOf, ha]
+      · rw [boundsOf.eq_18 _ _ _ hnb, boundsOf.eq_18 _ _ _ hnb]
+    | _ => simp [boundsOf]
+
+theorem lookupB_filter (bm : BoundsMap (Ext K)) (p : String → Bool) (x : String) :
+    lookupB (bm.filter fun q => p q.1) x = if p x then lookupB bm x else none := by
+  induction bm with
+  | nil => simp [lookupB]
+  | cons q bm ih =>
+    by_cases hq : p q.1 = true
+    · rw [List.filter_cons_of_pos (by simpa using hq)]
+      unfold lookupB at ih ⊢
+      by_cases hx : q.1 = x
+      · subst hx; simp [hq]
+      · have : (q.1 == x) = false := by simpa using hx
+        simp only [List.find?_cons, this]
+        exact ih
+    · rw [List.filter_cons_of_neg (by simpa using hq)]
+      unfold lookupB at ih ⊢
+      by_cases hx : q.1 = x
+      · subst hx
+        simp only [ih, hq, Bool.false_eq_true, if_false]
+      · have : (q.1 == x) = false := by simpa using hx
+        simp only [List.find?_cons, this]
+        exact ih
+
+/-- the oracle only needs the box on the variables of the expression. -/
+theorem BoundsOracle.on (hbo : BoundsOracle K) {S : String → Prop} {bm : BoundsMap (Ext K)} {ρ : String → K}
+    {e : Exp (Ext K)} {v : K} (hbox : BoxOKon S ρ bm) (hs : ∀ x ∈ varsOf e, S x) (he : eval ρ e = some v) :
+    Encl (boundsOf bm e) v := by
+  classical
+  let bm' : BoundsMap (Ext K) := bm.filter fun q => decide (S q.1)
+  have hl : ∀ x, lookupB bm' x = if decide (S x) = true then lookupB bm x else none :=
+    fun x => lookupB_filter bm (fun n => decide (S n)) x
+  have hcongr : boundsOf bm e = boundsOf bm' e := by
+    apply boundsOf_congr
+    intro x hx
+    rw [hl x]; simp [hs x hx]
+  rw [hcongr]
+  apply hbo bm' ρ e v _ he
+  intro n b hnb
+  rw [hl n] at hnb
+  by_cases hS : S n
+  · simp only [hS, decide_true, if_true] at hnb
+    exact hbox n b hS hnb
+  · simp [hS] at hnb
+
 theorem geExt_iff (x : K) (l : Ext K) : geExt x l = true ↔ lowerOK l x := by
   cases l <;> simp [geExt, lowerOK]
 theorem leExt_iff (x : K) (u : Ext K) : leExt x u = true ↔ upperOK u x := by
@@ -119,7 +224,7 @@ theorem ArithC.toScoped {S : String → Prop} {c : Constraint (Ext K)} (hc : Ari
 constraints; everything else in the queue is an affine, everywhere-defined comparison. -/
 structure StInv (Src : Constraint (Ext K) → Prop) (s : St (Ext K)) : Prop where
   nodup : (s.domain.map (·.name)).Nodup
-  box : ∀ ρ : String → K, DomSat ρ s.domain → BoxOK ρ s.bounds
+  box : ∀ ρ : String → K, DomSat ρ s.domain → BoxOKon (inScope s.domain) ρ s.bounds
   qscoped : ∀ c ∈ s.queue, ScopedC (inScope s.domain) c
   qgood : ∀ c ∈ s.queue, Src c ∨ (ArithC (inScope s.domain) c ∧ DefinedC c)
 
